@@ -361,6 +361,8 @@ def _job(args):
     pid, modname, facet_name, tier, seed, shard, nshards = args
     import importlib
 
+    if tier == "fuzz":
+        return _fuzz_job(pid, facet_name, seed, shard, nshards)
     mod = importlib.import_module(modname)
     facet = [f for f in mod.FACETS if f.name == facet_name][0]
     try:
@@ -369,6 +371,55 @@ def _job(args):
         return ("harness", str(e))
     except BaseException as e:  # noqa: BLE001
         return ("harness", f"{facet_name}/{shard}: {type(e).__name__}: {e}\n{traceback.format_exc()}")
+
+
+def _fuzz_job(pid, facet_name, seed, shard, runs):
+    """One coverage-guided campaign (vk/fuzz.py) in a child process; its Stats are merged into the
+    facet's like any other shard. A campaign that does not finish is inconclusive, never a violation."""
+    import subprocess
+    import tempfile
+
+    fd, out = tempfile.mkstemp(prefix=f"vkfuzz-{pid}-", suffix=".json", dir=os.path.join(VERIF_DIR, ".fuzz"))
+    os.close(fd)
+    os.unlink(out)
+    limit = float(os.environ.get("VK_FUZZ_TIMEOUT", "1800"))
+    note = None
+    try:
+        r = subprocess.run(
+            [sys.executable, "-m", "vk.fuzz", pid, facet_name, str(seed * 1000 + shard), str(runs), out],
+            cwd=VERIF_DIR, capture_output=True, text=True, timeout=limit,
+        )
+        if os.path.exists(out):
+            with open(out) as f:
+                d = json.load(f)
+            os.unlink(out)
+            if "harness_error" in d:
+                return ("harness", f"{facet_name}/coverage-guided: {d['harness_error']}")
+            return ("ok", d)
+        note = f"coverage-guided campaign ended without a result (rc={r.returncode}): {r.stderr[-300:]!r}"
+    except subprocess.TimeoutExpired:
+        note = f"coverage-guided campaign did not finish within {limit:.0f}s"
+    st = Stats(facet_name)
+    st.notes.append("inconclusive: " + note)
+    return ("ok", st.to_dict())
+
+
+def fuzz_available():
+    """atheris is installed beside the checks (into /verif/.deps) from the offline wheelhouse on
+    first use; without it the coverage-guided shards are skipped (and the evidence says so)."""
+    deps = os.path.join(VERIF_DIR, ".deps")
+    if os.path.isdir(os.path.join(deps, "atheris")):
+        return True
+    import subprocess
+
+    try:
+        subprocess.run(
+            [sys.executable, "-m", "pip", "install", "-q", "--no-index", "--find-links", "/opt/veriftools/wheels", "--target", deps, "atheris"],
+            capture_output=True, timeout=300,
+        )
+    except Exception:  # noqa: BLE001
+        return False
+    return os.path.isdir(os.path.join(deps, "atheris"))
 
 
 def run_property(pid, modname, tier, seed, level, rule, assumptions, procs=16, only_facets=None):
@@ -383,6 +434,18 @@ def run_property(pid, modname, tier, seed, level, rule, assumptions, procs=16, o
         _, nshards = f.budget(tier)
         for sh in range(nshards):
             jobs.append((pid, modname, f.name, tier, seed, sh, nshards))
+    fuzz_note = None
+    if tier == "thorough" and os.environ.get("VK_FUZZ", "1") != "0" and not COLLECT and not ONLY_BUCKET:
+        # a second search engine over the same generators and oracles: coverage-guided byte mutation
+        fz = [f for f in facets if not f.enumerative and not getattr(f, "stateful", False) and getattr(f, "fuzz_runs", 4000) > 0]
+        if fz and fuzz_available():
+            os.makedirs(os.path.join(VERIF_DIR, ".fuzz"), exist_ok=True)
+            for f in fz:
+                for sh in range(getattr(f, "fuzz_shards", 1)):
+                    jobs.append((pid, modname, f.name, "fuzz", seed, 900 + sh, getattr(f, "fuzz_runs", 4000)))
+            fuzz_note = f"coverage-guided campaigns on {len(fz)} facet(s)"
+        elif fz:
+            fuzz_note = "coverage-guided campaigns skipped: atheris could not be installed from the wheelhouse"
     results: dict[str, list[dict]] = {f.name: [] for f in facets}
     harness_errors = []
     if len(jobs) == 1 or procs == 1:
@@ -535,6 +598,7 @@ def run_property(pid, modname, tier, seed, level, rule, assumptions, procs=16, o
             },
             "known_findings_reproduced": reproduced,
             "saved_replays": {"re_executed": replayed, "stale_format": stale},
+            "coverage_guided": fuzz_note,
         },
         "assumptions": assumptions,
         "wall_s": round(time.time() - t0, 2),
